@@ -281,14 +281,17 @@ func c07syncTransport(e common.Env, p *common.Part) {
 type byzRun struct {
 	net      *dnet
 	expected int
+	// mustComplete > 0: this many honest members called, exactly as many as expected, and the misbehaving member never enters
+	// anybody's view: all of them complete
+	mustComplete int
 	honest   []*dinst
 	wedge    bool
 	note     string
 }
 
 func unitC07byz(e common.Env, p *common.Part) {
-	p.Rule = "Byzantine members are one or more real disc.Member instances under the same identifier with filtered inputs and re-routed outputs, following targeted plans under which honest members can still complete: partition-and-lie (one Byzantine instance per honest group, partition healed at a PRNG instant), shadow coalition (Byzantine instances that hear only each other and a phantom of a silent member), two-faced without partition, outsider and member replaying every captured transmission under their own identity, response flood (several instances of one identifier answer replayed queries with different views after the victim completed), late surplus announcer (one member more than expected joins at a PRNG instant around the moment the views converge) surplus at a decision point (the victim is held at a verif point of Synchronize while the surplus member announces itself) and view rewrite at a decision point (while the victim is held there, a second instance of a session member that only ever heard silent phantoms announces a different view of the same length to it), mirror (a member whose every transmission to X carries, under its real tag, exactly the list X itself announced or queried last) and crafted lists (its lists are replaced by permuted, duplicated, truncated, padded, empty or 30000-entry lists, or the type byte of its otherwise untouched transmissions by 0, 4, 5, 0x7f, 0x80, 0xff) and confusable views (its announcements carry the destination's own latest list with entries replaced by values that a sloppy comparison or encoding could confuse with them: the same decimal digits split elsewhere, identifiers from the UTF-16 surrogate range, the same low byte, the same high byte, byte-swapped; its responses mirror the queried list) and answering for a silent member (a configured member that talks to the Byzantine member only; the Byzantine member re-sends everything it receives from it to the honest members over its own link) and retry after a failed call (all honest: a member whose call fails after it has acknowledged the others' lists calls Synchronize again on the same topic, on the same object, together with late members); distinct key = (plan, parameters, seed); non-trivial when an honest member completed or a Byzantine transmission was processed by an honest member"
-	plans := []string{"partition-and-lie", "shadow-coalition", "two-faced", "replay", "response-flood", "shadow-coalition", "partition-and-lie", "late-surplus-announcer", "surplus-at-decision-point", "surplus-at-decision-point", "view-rewrite-at-decision-point", "view-rewrite-at-decision-point", "mirror", "crafted-lists", "confusable-views", "confusable-views", "answering-for-a-silent-member", "retry-after-failed-call"}
+	p.Rule = "Byzantine members are one or more real disc.Member instances under the same identifier with filtered inputs and re-routed outputs, following targeted plans under which honest members can still complete: partition-and-lie (one Byzantine instance per honest group, partition healed at a PRNG instant), shadow coalition (Byzantine instances that hear only each other and a phantom of a silent member), two-faced without partition, outsider and member replaying every captured transmission under their own identity, response flood (several instances of one identifier answer replayed queries with different views after the victim completed), late surplus announcer (one member more than expected joins at a PRNG instant around the moment the views converge) surplus at a decision point (the victim is held at a verif point of Synchronize while the surplus member announces itself) and view rewrite at a decision point (while the victim is held there, a second instance of a session member that only ever heard silent phantoms announces a different view of the same length to it), mirror (a member whose every transmission to X carries, under its real tag, exactly the list X itself announced or queried last) and crafted lists (its lists are replaced by permuted, duplicated, truncated, padded, empty or 30000-entry lists, or the type byte of its otherwise untouched transmissions by 0, 4, 5, 0x7f, 0x80, 0xff) and confusable views (its announcements carry the destination's own latest list with entries replaced by values that a sloppy comparison or encoding could confuse with them: the same decimal digits split elsewhere, identifiers from the UTF-16 surrogate range, the same low byte, the same high byte, byte-swapped; its responses mirror the queried list) and answering for a silent member (a configured member that talks to the Byzantine member only; the Byzantine member re-sends everything it receives from it to the honest members over its own link) and stray acknowledgements (a configured member that never announces itself answers queries, under its own tag, with acknowledgements of another list than the agreed one; exactly the expected honest members call and must all complete) and retry after a failed call (all honest: a member whose call fails after it has acknowledged the others' lists calls Synchronize again on the same topic, on the same object, together with late members); distinct key = (plan, parameters, seed); non-trivial when an honest member completed or a Byzantine transmission was processed by an honest member"
+	plans := []string{"partition-and-lie", "shadow-coalition", "two-faced", "replay", "response-flood", "shadow-coalition", "partition-and-lie", "late-surplus-announcer", "surplus-at-decision-point", "surplus-at-decision-point", "view-rewrite-at-decision-point", "view-rewrite-at-decision-point", "mirror", "crafted-lists", "confusable-views", "confusable-views", "answering-for-a-silent-member", "retry-after-failed-call", "stray-acknowledgements", "stray-acknowledgements"}
 	n := e.Pick(400, 6000)
 	for i := 0; i < n; i++ {
 		if !e.Mine(i) || p.ViolationCount() >= 3 {
@@ -321,6 +324,9 @@ func unitC07byz(e common.Env, p *common.Part) {
 			}
 		}
 		comp := honestCompletions(r.net)
+		if sig == "" && r.mustComplete > 0 && comp < r.mustComplete {
+			sig, what = "no-completion", fmt.Sprintf("only %d of the %d honest members completed although exactly the expected number of members invoked Synchronize, all their messages were delivered, and the misbehaving member never announced itself", comp, r.mustComplete)
+		}
 		p.Case(key, true)
 		p.Count("byz_sessions", 1)
 		p.Count("honest_completions_under_attack", int64(comp))
@@ -825,6 +831,56 @@ func runByzPlan(plan string, idx int, rng *rand.Rand) byzRun {
 		r := byzRun{net: net, expected: E, note: fmt.Sprintf("honest=%v byz=%d expected=%d crafted transmissions=%d", hs, b, E, atomic.LoadInt32(&crafted))}
 		if !selfOK {
 			r.note += " [format self-check failed: transmissions left unchanged]"
+		}
+		return r
+	case "stray-acknowledgements":
+		// a configured member that never announces itself (its announcements and queries are dropped at the source) but answers
+		// queries - with ITS OWN valid tag - by acknowledgements that carry another list than the one the honest members agree on
+		// (the honest list minus its last entry, plus itself, reversed, empty). Exactly the expected honest members call.
+		nh := 2 + rng.Intn(3)
+		ids := pickIDs(rng, nh+1, idx%2 == 1)
+		rng.Shuffle(len(ids), func(i, j int) { ids[i], ids[j] = ids[j], ids[i] })
+		hs, b := ids[:nh], ids[nh]
+		universe := append([]uint16{}, ids...)
+		sort.Slice(universe, func(i, j int) bool { return universe[i] < universe[j] })
+		net := newDnet(universe, rng)
+		var stray int32
+		bi := net.add(b, "byz-"+plan, false)
+		variant := idx % 4
+		bi.rewrite = func(dst uint16, data []byte) []byte {
+			if len(data) < 33 {
+				return nil
+			}
+			if data[0] != 3 { // only acknowledgements (type 3) leave this member
+				return nil
+			}
+			head, list := data[:33], data[33:]
+			var nl []byte
+			switch variant {
+			case 0: // last entry dropped
+				nl = append(nl, list[:max(0, len(list)-2)]...)
+			case 1: // itself appended
+				nl = append(append([]byte{}, list...), byte(b), byte(b>>8))
+			case 2: // reversed
+				for i := len(list) - 2; i >= 0; i -= 2 {
+					nl = append(nl, list[i], list[i+1])
+				}
+			default: // empty
+			}
+			atomic.AddInt32(&stray, 1)
+			return append(append([]byte{}, head...), nl...)
+		}
+		ctx, cancel := context.WithTimeout(context.Background(), 1500*time.Millisecond)
+		defer cancel()
+		net.start(ctx, &wg, bi, topic, nh, interval) // it is registered for the topic first, so that it answers from the start
+		time.Sleep(300 * time.Microsecond)
+		for _, h := range hs {
+			net.start(ctx, &wg, net.add(h, "honest", true), topic, nh, interval)
+		}
+		wg.Wait()
+		r := byzRun{net: net, expected: nh, note: fmt.Sprintf("honest=%v silent-but-answering member=%d stray acknowledgements=%d variant=%d", hs, b, atomic.LoadInt32(&stray), variant)}
+		if atomic.LoadInt32(&stray) > 0 {
+			r.mustComplete = nh
 		}
 		return r
 	case "shadow-coalition":
